@@ -1077,6 +1077,13 @@ class DriverLubaRs232(DriverSerialBase):
             # Make sure the received command buffer is empty, so that an
             # unexpected response can't accidentally be used
             self._protocol.reset_dali_response()
+            if msg.devicetype != 0 and not in_transaction:
+                # Application extended commands are only valid directly
+                # after EnableDeviceType; within a transaction the caller
+                # (e.g. run_sequence) sends it
+                await self._protocol.send_dali_command(
+                    gear.general.EnableDeviceType(msg.devicetype)
+                )
             await self._protocol.send_dali_command(msg)
             if msg.is_query:
                 response = command.Response(None)
@@ -1668,6 +1675,13 @@ class DriverSCIRS232(DriverSerialBase):
             # Make sure the received command buffer is empty, so that an
             # unexpected response can't accidentally be used
             self._protocol.reset_dali_response()
+            if msg.devicetype != 0 and not in_transaction:
+                # Application extended commands are only valid directly
+                # after EnableDeviceType; within a transaction the caller
+                # (e.g. run_sequence) sends it
+                await self._protocol.send_dali_command(
+                    gear.general.EnableDeviceType(msg.devicetype)
+                )
             await self._protocol.send_dali_command(msg)
             if msg.is_query:
                 response = command.Response(None)
